@@ -173,8 +173,8 @@ static void apply_setter(obj_t *o, int f, int v)
         else if (v == 2) { pixman_region16_t r; pixman_box16_t b[2] = { { 0, 0, 3, 2 }, { 2, 2, 5, 4 } }; pixman_region_init_rects(&r, b, 2); pixman_image_set_clip_region(im, &r); pixman_region_fini(&r); }
         else { pixman_region32_t r; pixman_box32_t b[2] = { { 0, 0, 5, 1 }, { 0, 1, 2, 4 } }; pixman_region32_init_rects(&r, b, 2); pixman_image_set_clip_region32(im, &r); pixman_region32_fini(&r); }
         break;
-    case F_CSRC: pixman_image_set_source_clipping(im, v); break;
-    case F_CCL: pixman_image_set_has_client_clip(im, v); break;
+    case F_CSRC: pixman_image_set_source_clipping(im, v ? ph_truthy((uint64_t)o->kind + 1) : 0); break;      /* "on" is any non-zero int */
+    case F_CCL: pixman_image_set_has_client_clip(im, v ? ph_truthy((uint64_t)o->kind + 3) : 0); break;
     case F_AMAP:
         /* value 3 changes a property of the ALPHA-MAP image (a separate long-lived image that is only ever validated through its owner);
          * when the map is already attached at (0,0) the owner is not touched at all */
@@ -186,7 +186,7 @@ static void apply_setter(obj_t *o, int f, int v)
             if (v == 0) pixman_image_set_alpha_map(im, NULL, 0, 0); else pixman_image_set_alpha_map(im, o->amap, (int16_t)(v - 1), 0);
         }
         break;
-    case F_CA: pixman_image_set_component_alpha(im, v); break;
+    case F_CA: pixman_image_set_component_alpha(im, v ? ph_truthy((uint64_t)o->kind + 2) : 0); break;
     case F_ACC: if (v) pixman_image_set_accessors(im, acc_read, acc_write); else pixman_image_set_accessors(im, NULL, NULL); break;
     case F_DITH: { static const pixman_dither_t d[3] = { PIXMAN_DITHER_NONE, PIXMAN_DITHER_ORDERED_BAYER_8, PIXMAN_DITHER_ORDERED_BLUE_NOISE_64 }; pixman_image_set_dither(im, d[v]); break; }
     case F_DOFF: pixman_image_set_dither_offset(im, v ? 1 : 0, v ? 2 : 0); break;
